@@ -439,6 +439,10 @@ func (s *Source) Read(buf []byte) (int, error) {
 	switch n.fault("Read", s.ID) {
 	case "fatal":
 		return 0, fmt.Errorf("recvfrom: %w", ErrInjected)
+	case "fatal-etimedout":
+		// a hard socket error whose errno happens to describe itself as a timeout (ETIMEDOUT: Errno.Timeout() is true) - not
+		// the read deadline (it does not match os.ErrDeadlineExceeded): a failed read like any other
+		return 0, fmt.Errorf("%w (%w)", os.NewSyscallError("recvfrom", syscall.ETIMEDOUT), ErrInjected)
 	case "deadline":
 		return 0, os.ErrDeadlineExceeded
 	case "zero":
@@ -564,10 +568,13 @@ type SynAckSpec struct {
 	WrongFirst   bool   `json:"wrong_first,omitempty"` // precede with a SYN-ACK of another flow
 	NoiseKind    string `json:"noise_kind,omitempty"`  // precede the genuine SYN-ACK with mutations of it (see Listener.Mutate)
 	NoiseArg     int    `json:"noise_arg,omitempty"`
-	NoiseForeign bool   `json:"noise_foreign,omitempty"`  // the mutated SYN-ACKs belong to another flow (client port differs)
-	LateCopyMs   int    `json:"late_copy_ms,omitempty"`   // one more copy of the genuine SYN-ACK this long after the first (a retransmission seen during the probe phase)
-	FloodCount   int    `json:"flood_count,omitempty"`    // SYN-ACKs of other connections to the same target, ...
-	FloodEveryMs int    `json:"flood_every_ms,omitempty"` // ... this far apart, starting when the connection is accepted
+	NoiseForeign bool   `json:"noise_foreign,omitempty"` // the mutated SYN-ACKs belong to another flow (client port differs)
+	// NoiseAckDelta: the mutated SYN-ACKs acknowledge AckNum+delta instead of AckNum (a stale or forged SYN-ACK on the same
+	// 4-tuple: accepting one of them as the handshake shifts the connection's sequence base)
+	NoiseAckDelta uint32 `json:"noise_ack_delta,omitempty"`
+	LateCopyMs    int    `json:"late_copy_ms,omitempty"`   // one more copy of the genuine SYN-ACK this long after the first (a retransmission seen during the probe phase)
+	FloodCount    int    `json:"flood_count,omitempty"`    // SYN-ACKs of other connections to the same target, ...
+	FloodEveryMs  int    `json:"flood_every_ms,omitempty"` // ... this far apart, starting when the connection is accepted
 	// Greeting: a data segment of the accepted connection (PSH|ACK, the server's banner) is on the wire at DelayNs, the
 	// SYN-ACK (if Enabled) 2 ms behind it: what a capture handle without a working SYN-ACK filter sees first
 	Greeting bool `json:"greeting,omitempty"`
@@ -707,7 +714,10 @@ func (l *Listener) poll(n *Net) {
 			if l.Spec.NoiseForeign {
 				cl = netip.AddrPortFrom(client.Addr(), client.Port()^1)
 			}
-			for k, nb := range l.Mutate(l.Spec.NoiseKind, l.Spec.NoiseArg, mk(l.Addr, cl)) {
+			ackNum += l.Spec.NoiseAckDelta
+			noisy := mk(l.Addr, cl)
+			ackNum -= l.Spec.NoiseAckDelta
+			for k, nb := range l.Mutate(l.Spec.NoiseKind, l.Spec.NoiseArg, noisy) {
 				n.Schedule(Reply{DelayNs: int64(k) * 1000, Raw: nb, Meta: Meta{ToTTL: -1, Tag: "handshake-noise", From: l.Addr.Addr(), Flow: -1}})
 			}
 			if l.Spec.DelayNs == 0 {
